@@ -7,7 +7,7 @@ import engine_common as E
 
 VFILES = ["props/C12.v"]
 ASSUMPTIONS = ["termination is proved for the model; interpreter stack depth and running time are runtime behaviour the model cannot exhibit (see known findings)"]
-CLASSES = {"exc", "build"}
+CLASSES = {"exc", "build", "hang"}
 
 
 def probes(ctx):
